@@ -117,3 +117,34 @@ def set_schedule(d: Dict[Tuple[str, str], int]):
     SCHEDULE.clear()
     SCHEDULE.update(d)
     COMPLETIONS.clear()
+
+
+def probe_runtime(rng, n: int = 200) -> Dict[str, int]:
+    """the two facts about asyncio the models of C12 / C15 take for granted, observed on the running interpreter:
+    (1) asyncio.gather returns results in argument order whatever the completion order, (2) every gathered coroutine runs as its own
+    task with a COPY of the caller's context (a ContextVar set inside does not leak to the caller or to siblings, the caller's value is seen)."""
+    import contextvars
+    var: contextvars.ContextVar = contextvars.ContextVar("vf_probe", default="unset")
+    stats = {"gathers": 0, "order_ok": 0, "context_ok": 0}
+
+    async def child(i, delay, seen):
+        seen.append((i, var.get()))      # sees the caller's value
+        var.set(f"child{i}")
+        for _ in range(delay):
+            await asyncio.sleep(0)
+        return i, var.get()
+
+    async def one():
+        k = rng.randint(1, 7)
+        delays = [rng.randint(0, 5) for _ in range(k)]
+        var.set("parent")
+        seen = []
+        res = await asyncio.gather(*[child(i, d, seen) for i, d in enumerate(delays)])
+        stats["gathers"] += 1
+        stats["order_ok"] += int([r[0] for r in res] == list(range(k)))
+        stats["context_ok"] += int(all(v == "parent" for _, v in seen) and all(r[1] == f"child{r[0]}" for r in res) and var.get() == "parent")
+
+    for _ in range(n):
+        asyncio.run(one())
+    return stats
+
